@@ -53,7 +53,7 @@ Definition Inv (s : St) : Prop :=
 Lemma Inv_init sd : Inv (init sd).
 Proof. unfold Inv, init; simpl. repeat split; try lia; try discriminate; intros; discriminate. Qed.
 
-Lemma Inv_with_seed s x : Inv s -> Inv (with_seed s x).
+Lemma Inv_with_seed s ob x : Inv s -> Inv (with_seed s ob x).
 Proof. intros H. exact H. Qed.
 
 Lemma Inv_with_pos s q : Inv s -> Inv (with_pos s q).
@@ -62,12 +62,12 @@ Proof. intros (B1 & B2 & B3 & R & K & T). split; [exact B1|split; [exact B2|spli
 Lemma Inv_with_ext s x : Inv s -> Inv (with_ext s x).
 Proof. intros H. unfold with_ext. destruct (st_pos s); [now apply Inv_with_pos|exact H]. Qed.
 
-Lemma Inv_set_pos s q m : Inv s -> Inv (fst (do_set_pos repaired s q m)).
+Lemma Inv_set_pos ob s q m : Inv s -> Inv (fst (do_set_pos repaired ob s q m)).
 Proof.
   intros (B1 & B2 & B3 & R & K & T). unfold do_set_pos. simpl.
   split; [exact B1|split; [exact B2|split; [exact B3|split; [exact R|]]]].
   destruct (pos_changed repaired s q m); simpl.
-  - split; [intros _ E; discriminate E|intros ns id m0 rp E; discriminate E].
+  - split; [intros _ E; discriminate E|intros ns id m0 rp _ E; discriminate E].
   - split; [exact K|exact T].
 Qed.
 
@@ -107,7 +107,7 @@ Qed.
 Lemma finish_ok s2 del srk ns : Inv s2 ->
   let '(s', r) := finish_call repaired s2 del srk ns in
   Inv s' /\ st_pos s' = st_pos s2 /\
-  exists o, r = RField o /\ o_gmodel o = st_model s' /\ o_seed o = st_seed s' /\ o_post o = st_mtn s' /\
+  exists o, r = RField o /\ o_gmodel o = st_model s' /\ o_seed o = st_seed s' (obj_of ns) /\ o_post o = st_mtn s' /\
             (refreshed s' -> o_k o = cur_desc s' /\ o_v o = cur_desc s').
 Proof.
   intros HI. pose proof HI as (B1 & B2 & B3 & R & K & T). unfold finish_call.
@@ -149,10 +149,10 @@ Proof.
     destruct (RC eq_refl Hr2) as [A B]. rewrite A, B. split; reflexivity.
 Qed.
 
-Definition call_post (s' : St) (r : Res) : Prop :=
+Definition call_post (ob : nat) (s' : St) (r : Res) : Prop :=
   Inv s' /\
   match r with
-  | RField o => o_gmodel o = st_model s' /\ o_seed o = st_seed s' /\ o_post o = st_mtn s' /\ st_pos s' <> None /\
+  | RField o => o_gmodel o = st_model s' /\ o_seed o = st_seed s' ob /\ o_post o = st_mtn s' /\ st_pos s' <> None /\
                 (refreshed s' -> o_k o = cur_desc s' /\ o_v o = cur_desc s')
   | _ => True
   end.
@@ -161,15 +161,15 @@ Lemma with_ext_pos s x : st_pos s <> None -> st_pos (with_ext s x) <> None.
 Proof. unfold with_ext. destruct (st_pos s) eqn:P; [simpl; discriminate|intros H; rewrite P; exact H]. Qed.
 
 Lemma call_spec s p sd srk ns xd :
-  Inv s -> call_post (fst (do_call repaired s p sd srk ns xd)) (snd (do_call repaired s p sd srk ns xd)).
+  Inv s -> call_post (obj_of ns) (fst (do_call repaired s p sd srk ns xd)) (snd (do_call repaired s p sd srk ns xd)).
 Proof.
   intros HI. unfold do_call.
-  set (s1 := match sd with Some x => with_seed s x | None => s end).
+  set (s1 := match sd with Some x => with_seed s (obj_of ns) x | None => s end).
   assert (I1 : Inv s1) by (unfold s1; destruct sd; auto).
   destruct p as [[q m]|].
-  - pose proof (Inv_set_pos s1 q m I1) as I2.
-    assert (F1 : st_pos (fst (do_set_pos repaired s1 q m)) <> None) by (simpl; discriminate).
-    destruct (do_set_pos repaired s1 q m) as [s2 del]. simpl in I2, F1.
+  - pose proof (Inv_set_pos (obj_of ns) s1 q m I1) as I2.
+    assert (F1 : st_pos (fst (do_set_pos repaired (obj_of ns) s1 q m)) <> None) by (simpl; discriminate).
+    destruct (do_set_pos repaired (obj_of ns) s1 q m) as [s2 del]. simpl in I2, F1.
     pose proof (finish_ok (with_ext s2 xd) del srk ns (Inv_with_ext s2 xd I2)) as FS.
     pose proof (with_ext_pos s2 xd F1) as F2.
     destruct (finish_call repaired (with_ext s2 xd) del srk ns) as [s' r]. destruct FS as (IS & PS & o & -> & G & SE & PO & KV).
@@ -202,7 +202,7 @@ Qed.
 (* ---------- every operation of the current tree preserves the invariant *)
 Lemma Inv_step s op : Inv s -> Inv (fst (step repaired s op)).
 Proof.
-  intros HI. destruct op as [p sd srk ns xd|q m|k| | | | | | | |sd|q|p|q]; simpl.
+  intros HI. destruct op as [p sd srk ns xd|ob q m|k| | | | | | | |ob sd|q|p|q]; simpl.
   - apply (call_spec s p sd srk ns xd HI).
   - apply Inv_set_pos; auto.
   - destruct HI as (B1 & B2 & B3 & R & K & T). unfold Inv, do_set_cond, refreshed, settings; simpl.
@@ -242,20 +242,24 @@ Proof.
 Qed.
 
 (* ---------- what a freshly built object returns *)
-Lemma fresh_result_eq s :
-  fresh_result s =
+Lemma obj_of_key ob : obj_of (4 * ob) = ob.
+Proof. unfold obj_of. rewrite Nat.mul_comm. apply Nat.div_mul. discriminate. Qed.
+
+Lemma fresh_result_eq s ob :
+  fresh_result s ob =
   let d := mkKDesc (cur_pos s) (st_mesh s) (st_cond s) (st_model s) (st_model s) (st_mtn s) in
-  RField (mkOut false d d (st_model s) (st_seed s) (st_mtn s)).
+  RField (mkOut false d d (st_model s) (st_seed s ob) (st_mtn s)).
 Proof.
-  unfold fresh_result, step, do_call, fresh_of, do_set_pos, pos_changed, finish_call, with_ext, with_pos, set_ext. simpl.
-  rewrite orb_true_r. simpl. destruct (cur_pos s); reflexivity.
+  unfold fresh_result, step, do_call, fresh_of, do_set_pos, pos_changed, finish_call, with_ext, with_pos, set_ext.
+  cbn [st_pos st_mesh st_cnames st_knames fst snd]. rewrite orb_true_r. cbn [negb andb].
+  rewrite obj_of_key. simpl. destruct (cur_pos s); reflexivity.
 Qed.
 
 (* ---------- cache coherence over all histories: NO side condition on the positions any more *)
 Theorem cache_coherent sd0 ops p sd srk ns xd :
   let s := run repaired ops (init sd0) in
   forall s' o, step repaired s (Call p sd srk ns xd) = (s', RField o) -> refreshed s' ->
-  same_field (RField o) (fresh_result s').
+  same_field (RField o) (fresh_result s' (obj_of ns)).
 Proof.
   intros s s' o E Hr.
   assert (HI : Inv s) by (apply Inv_run; apply Inv_init).
@@ -335,12 +339,12 @@ Theorem reuse_when_unchanged fx s p sd ns xd s1 o1 :
   exists s2 o2, step fx s1 (Call q sd2 srk ns xd) = (s2, RField o2) /\ o_reuse o2 = true /\ o_k o2 = o_k o1 /\ o_v o2 = o_v o1.
 Proof.
   simpl. unfold do_call at 1.
-  set (sa := match sd with Some x => with_seed s x | None => s end).
+  set (sa := match sd with Some x => with_seed s (obj_of ns) x | None => s end).
   intros E q sd2 srk HR Hq.
   assert (X : exists sb del, finish_call fx sb del true ns = (s1, RField o1) /\ exists qb, st_pos sb = Some qb /\ p_ext qb = xd).
   { destruct p as [[c m]|].
-    - assert (F1 : st_pos (fst (do_set_pos fx sa c m)) <> None) by (simpl; discriminate).
-      destruct (do_set_pos fx sa c m) as [sb del]. simpl in F1.
+    - assert (F1 : st_pos (fst (do_set_pos fx (obj_of ns) sa c m)) <> None) by (simpl; discriminate).
+      destruct (do_set_pos fx (obj_of ns) sa c m) as [sb del]. simpl in F1.
       exists (with_ext sb xd), del. split; [exact E|]. apply with_ext_some; exact F1.
     - destruct (st_pos sa) eqn:P; [|discriminate]. exists (with_ext sa xd), false. split; [exact E|].
       apply with_ext_some. rewrite P. discriminate. }
@@ -349,7 +353,7 @@ Proof.
   destruct N as (N2 & N1 & TK & P1 & M1 & o & Eo & K1 & K2). injection Eo as <-.
   rewrite <- K1, <- K2. rewrite Pb in P1.
   unfold do_call.
-  set (sc := match sd2 with Some x => with_seed s1 x | None => s1 end).
+  set (sc := match sd2 with Some x => with_seed s1 (obj_of ns) x | None => s1 end).
   assert (C : st_pos sc = st_pos s1 /\ st_mesh sc = st_mesh s1 /\ st_cnames sc = st_cnames s1 /\
               st_knames sc = st_knames s1 /\ st_rk sc = st_rk s1 /\ st_kv sc = st_kv s1 /\
               st_kvid sc = st_kvid s1 /\ st_ref sc = st_ref s1)
@@ -389,13 +393,13 @@ Proof.
   split; [intros k; reflexivity|]. split; [reflexivity|]. split; [reflexivity|].
   assert (WE : forall t x, refreshed t -> refreshed (with_ext t x)).
   { intros t x H. unfold with_ext. destruct (st_pos t); exact H. }
-  intros op Hr Hop. destruct op as [p sd srk ns xd|q m|k| | | | | | | |sd|q|p|q]; try reflexivity; try exact Hr; try contradiction.
+  intros op Hr Hop. destruct op as [p sd srk ns xd|ob q m|k| | | | | | | |ob sd|q|p|q]; try reflexivity; try exact Hr; try contradiction.
   - simpl. unfold do_call.
-    set (s1 := match sd with Some x => with_seed s x | None => s end).
+    set (s1 := match sd with Some x => with_seed s (obj_of ns) x | None => s end).
     assert (R1 : refreshed s1) by (unfold s1; destruct sd; exact Hr).
     destruct p as [[q m]|].
-    + assert (R2 : refreshed (fst (do_set_pos repaired s1 q m))) by exact R1.
-      destruct (do_set_pos repaired s1 q m) as [s2 del]. apply finish_refreshed. apply WE. exact R2.
+    + assert (R2 : refreshed (fst (do_set_pos repaired (obj_of ns) s1 q m))) by exact R1.
+      destruct (do_set_pos repaired (obj_of ns) s1 q m) as [s2 del]. apply finish_refreshed. apply WE. exact R2.
     + destruct (st_pos s1); [apply finish_refreshed; apply WE|]; exact R1.
   - simpl. unfold do_krige_call. destruct p as [[q m]|]; [exact Hr|]. destruct (st_pos s); exact Hr.
 Qed.
@@ -405,9 +409,10 @@ Definition P0 : Pos := mkPos 0 0 0.
 Definition P0j : Pos := mkPos 0 1 0.     (* inside the np.allclose window of P0 *)
 Definition P1 : Pos := mkPos 1 0 0.
 
+Definition op_obj (op : Op) : nat := match op with Call _ _ _ ns _ => obj_of ns | _ => 0 end.
 Definition stale (fx : Fix) (sd0 : nat) (ops : list Op) (last : Op) : Prop :=
   exists s' o, step fx (run fx ops (init sd0)) last = (s', RField o) /\ refreshed s' /\
-               ~ same_field (RField o) (fresh_result s').
+               ~ same_field (RField o) (fresh_result s' (op_obj last)).
 
 Ltac stale_witness :=
   unfold stale; eexists _, _; split; [vm_compute; reflexivity|]; split; [vm_compute; reflexivity|];
@@ -462,6 +467,17 @@ Proof. stale_witness. Qed.
 (* reuse test that ignores the external drift given with the call *)
 Theorem no_ext_token_refuted : stale no_ext_token 7 [Call (Some (P0, false)) None true 0 1] (Call None None true 0 2).
 Proof. stale_witness. Qed.
+
+(* the reference dict shared by all CondSRF objects (class attribute): two objects A (keys 0..3) and B (keys 4..7) on
+   one Krige; after new conditions A recalculates and stores the new krige_var object in the shared dict, then B's
+   identity test succeeds and B reuses its own stale raw kriging field *)
+Theorem class_level_ref_refuted :
+  stale class_level_ref 7 [c0; Call None None true 4 0; SetCond NewVals; cn] (Call None None true 4 0).
+Proof. stale_witness. Qed.
+Example two_objects_current_tree :
+  exists s' o, step repaired (run repaired [c0; Call None None true 4 0; SetCond NewVals; cn] (init 7)) (Call None None true 4 0)
+               = (s', RField o) /\ o_reuse o = false.
+Proof. eexists _, _. split; [vm_compute; reflexivity|reflexivity]. Qed.
 
 (* in-place model edit followed by re-assignment of the same object: up to date again, the old results are gone *)
 Example reassign_same_model_refreshes :
